@@ -296,6 +296,10 @@ def enum_special(tier):
     yield {"reactions": [[["H", "H"], ["H2"]], [["H2"], ["H", "H"], {"alpha": 0.0, "idx": 7}]], "rate_modifier": {"7": "2.0 * zeta"}, "family": "SP"}
     yield {"reactions": [[["H2"], ["H", "H"], {"alpha": 0.0, "idx": 3}], [["H", "H+"], ["H2+"], {"idx": 4}], [["H2+", "e-"], ["H", "H"], {"alpha": 0.0, "idx": 5}]], "rate_modifier": {"5": "1e-7", "3": "zeta"}, "cooling": ["CIC_HI"], "family": "SP"}
     yield {"reactions": BIG + [[["CO"], []]], "cooling": ["CIC_HI", "RC_HII"], "required": ["Ar"], "family": "SP"}
+    # a ring of 49 species (49 equations; 50 with the temperature): sizes at which index arithmetic done in floating
+    # point (i * (1.0 / n)) first goes wrong; every row has an entry in another row's column, column 0 included
+    ring = [f"C{n}H{n}" for n in range(2, 51)]
+    yield {"reactions": [[[a], [b]] for a, b in zip(ring, ring[1:] + ring[:1])], "family": "SP"}
 
 
 BIG = [
